@@ -2,7 +2,10 @@ use std::io::{Error, ErrorKind};
 use std::sync::Arc;
 
 use log::{debug, error, info, trace, warn};
+#[cfg(not(saito_verif))]
 use tokio::sync::RwLock;
+#[cfg(saito_verif)]
+use crate::core::util::verif::RwLock;
 
 use crate::core::consensus::block::Block;
 use crate::core::consensus::blockchain::Blockchain;
